@@ -139,36 +139,31 @@ def range (r : Rng α) (sr sc er ec : Nat) : Res (Rng α) :=
   | .panic s => .panic s
   | .outOfFuel => .outOfFuel
 
-/-- `Range::from_sparse`; a cell is `(row, col, value)` -/
-def sparseStep (rs cs cols len : Nat) (acc : Res (List α)) (c : Nat × Nat × α) : Res (List α) :=
-  match acc with
-  | .ok v =>
-    if c.1 < rs then .panic "u32 sub overflow"
-    else
-      let idx := (c.1 - rs) * cols + (c.2.1 - cs)
-      if idx < len then .ok (v.set idx c.2.2) else .ok v
-  | other => other
+/-- `Range::from_sparse`; a cell is `(row, col, value)`. The placement loop
+    `if let Some(v) = v.get_mut(idx) { *v = c.val }` on the flat vector. -/
+def sparseStep (rs cs cols len : Nat) (v : List α) (c : Nat × Nat × α) : List α :=
+  let idx := (c.1 - rs) * cols + (c.2.1 - cs)
+  if idx < len then v.set idx c.2.2 else v
 
+/-- `Range::from_sparse` (after fix D40): all four bounds are the minimum / maximum over all cells, found in
+    one loop; the cells may come in any order. The Rust loop starts the minima from `u32::MAX`, which is ≥ every
+    `u32` coordinate — the same as starting from the first cell's coordinate, which is what the model does (so
+    that the minimum is exact for every `Nat`, not only below 2^32); the maxima start from `0` as in the code. -/
 def fromSparse (cells : List (Nat × Nat × α)) : Res (Rng α) :=
   match cells with
   | [] => .ok empty
   | c0 :: _ =>
-    let rs := c0.1
-    let re := (cells.getLast?.getD c0).1
-    let cs := cells.foldl (fun m c => if c.2.1 < m then c.2.1 else m) (U32 - 1)
+    let rs := cells.foldl (fun m c => if c.1 < m then c.1 else m) c0.1
+    let re := cells.foldl (fun m c => if c.1 > m then c.1 else m) 0
+    let cs := cells.foldl (fun m c => if c.2.1 < m then c.2.1 else m) c0.2.1
     let ce := cells.foldl (fun m c => if c.2.1 > m then c.2.1 else m) 0
     if ce - cs + 1 ≥ U32 then .panic "u32 add overflow"
-    else if re < rs then .panic "u32 sub overflow"
     else if re - rs + 1 ≥ U32 then .panic "u32 add overflow"
     else
       let cols := ce - cs + 1
       let rows := re - rs + 1
       let len := cols * rows
-      match cells.foldl (sparseStep rs cs cols len) (.ok (List.replicate len default)) with
-      | .ok v => .ok ⟨rs, cs, re, ce, v⟩
-      | .err e => .err e
-      | .panic s => .panic s
-      | .outOfFuel => .outOfFuel
+      .ok ⟨rs, cs, re, ce, cells.foldl (sparseStep rs cs cols len) (List.replicate len default)⟩
 
 /-! ### the abstract view -/
 
@@ -223,9 +218,16 @@ def run (ops : List (Op α)) : Res (Rng α) := runFrom empty ops
 def rectPre (sr sc er ec : Nat) : Prop :=
   sr ≤ er ∧ sc ≤ ec ∧ er - sr + 1 < U32 ∧ ec - sc + 1 < U32 ∧ (er - sr + 1) * (ec - sc + 1) < U32
 
-/-- the documented precondition of `from_sparse` (cells sorted by row: every row lies between the
-    first's and the last's), all coordinates are `u32`, and the spans `+ 1` fit `u32` -/
+/-- the precondition of `from_sparse` (after fix D40 the cells may come in any order): all coordinates are
+    `u32` and the row / column spans `+ 1` fit `u32` -/
 def sparsePre (cells : List (Nat × Nat × α)) : Prop :=
+  (∀ c ∈ cells, c.1 < U32 ∧ c.2.1 < U32) ∧
+  (∀ c ∈ cells, ∀ c' ∈ cells, c'.1 - c.1 + 1 < U32 ∧ c'.2.1 - c.2.1 + 1 < U32)
+
+/-- the precondition `from_sparse` documented before fix D40 (cells sorted by row: every row lies between the
+    first's and the last's) together with the `u32` bounds; implies `sparsePre`, and under it the row bounds
+    are the first and the last cell's rows -/
+def sparsePreSorted (cells : List (Nat × Nat × α)) : Prop :=
   match cells with
   | [] => True
   | c0 :: _ =>
@@ -244,7 +246,9 @@ def Pre (r : Rng α) : Op α → Prop
 
 instance (sr sc er ec : Nat) : Decidable (rectPre sr sc er ec) := by unfold rectPre; exact inferInstance
 instance (cells : List (Nat × Nat × α)) : Decidable (sparsePre cells) := by
-  unfold sparsePre; cases cells <;> exact inferInstance
+  unfold sparsePre; exact inferInstance
+instance (cells : List (Nat × Nat × α)) : Decidable (sparsePreSorted cells) := by
+  unfold sparsePreSorted; cases cells <;> exact inferInstance
 instance (r : Rng α) (op : Op α) : Decidable (Pre r op) := by
   cases op <;> unfold Pre <;> exact inferInstance
 
